@@ -256,7 +256,7 @@ def hparams_obj(h):
   import fedjax
   return fedjax.ShuffleRepeatBatchHParams(batch_size=h['batch_size'], num_epochs=h['num_epochs'],
                                           num_steps=h['num_steps'], drop_remainder=h['drop_remainder'],
-                                          seed=h['seed'])
+                                          seed=h['seed'], skip_shuffle=h.get('skip_shuffle', False))
 
 
 def gen_hparams(g, allow_seed_none=True):
@@ -266,7 +266,8 @@ def gen_hparams(g, allow_seed_none=True):
     ns = g.choice([1, 2, 5])
   return {'batch_size': g.choice([1, 2, 3, 4, 8]), 'num_epochs': ne, 'num_steps': ns,
           'drop_remainder': g.chance(0.3),
-          'seed': (None if (allow_seed_none and g.chance(0.25)) else g.randint(0, 2**20))}
+          'seed': (None if (allow_seed_none and g.chance(0.25)) else g.randint(0, 2**20)),
+          'skip_shuffle': g.chance(0.1)}
 
 
 # ----------------------------------------------------------- reference ops
